@@ -173,3 +173,16 @@ class RealRoundTrip:
         return result == as_read(d, len(d))
 
     ensures = [items_back]
+
+
+# ------------------------------------------------------------------------------------------------- bounded stand-in / replay
+
+
+def _native(tier, seed):
+    from harness import tlv_pairing
+
+    return tlv_pairing.run(tier, seed, "C15/aiohomekit.protocol.tlv:TLV#native")
+
+
+RealRoundTrip.bounded_run = staticmethod(_native)
+RealRoundTrip.bound_note = "real encode_list / decode_bytearray / decode_bytes with real byte strings against the independent reference codec (harness/hap_accessory.py), incl. every truncation of three encodings"
